@@ -1,6 +1,7 @@
 import Hive.Proofs.SerixNoPanic
 import Hive.Proofs.SerixEncOrder
 import Hive.Proofs.SerixPrimRT
+import Hive.Proofs.SerixObjRT
 /-!
 # C01 (binary serix part) — the codec round-trips every encodable value
 
@@ -259,5 +260,57 @@ example :
         some ([254, 255, 2, 104, 105, 2, 0, 0, 1, 9, 0, 0, 0, 0, 0, 0, 0, 0], none) ∧
       (∀ op ∈ ops, (op.mirror true).isSome = true ∧ op.itemsOk = true) := by
   decide
+
+/-! ## The object-based pairs of serializer/serializer.go
+
+Model `Hive/Model/SerixObj.lean` (tied to the real calls by the harness part `c01/obj`, which carries the Go
+round-trip oracle of these pairs): `WriteObject/ReadObject`, `WritePayload/ReadPayload`,
+`WriteSliceOfObjects/ReadSliceOfObjects` over a family of `Serializable` objects (type code of one or four bytes,
+length byte, data) and guards over deny / allow lists. -/
+
+/-- `WriteObject / ReadObject`: whatever `WriteObject` completes without error (any mode, any write guard), `ReadObject`
+with a read guard admitting the code hands back, consuming exactly the bytes written, whatever follows. -/
+theorem C01_obj_roundtrip (val : Bool) (deny : Option (List Nat)) (o : Obj) (b : Bytes)
+    (hw : owOp (.obj val deny o) = .done b none) (hc : o.code < 256 ^ o.den.width) (allow : List Nat)
+    (ha : selOk allow o.code = true) (rest : Bytes) :
+    orOp (b ++ rest) (.obj o.den allow) = .done (some (.one (some o))) b.length none :=
+  obj_roundtrip val deny o b hw hc allow ha rest
+
+/-- `WritePayload / ReadPayload` for a payload with a four-byte type (what `ReadPayload` reads the type as). -/
+theorem C01_payload_roundtrip (deny : Option (List Nat)) (o : Obj) (b : Bytes)
+    (hw : owOp (.payload deny (some o)) = .done b none) (hd : o.den = .u32) (hc : o.code < 2 ^ 32) (allow : List Nat)
+    (ha : selOk allow o.code = true) (rest : Bytes) :
+    orOp (b ++ rest) (.payload allow) = .done (some (.one (some o))) b.length none :=
+  payload_roundtrip deny o b hw hd hc allow ha rest
+
+/-- … and the nil payload: written as the length 0, read back as "no payload", four bytes. -/
+theorem C01_payload_nil_roundtrip (deny : Option (List Nat)) (allow : List Nat) (rest : Bytes) :
+    owOp (.payload deny none) = .done (leBytes 4 0) none ∧
+    orOp (leBytes 4 0 ++ rest) (.payload allow) = .done (some (.one none)) 4 none :=
+  payload_nil_roundtrip deny allow rest
+
+/-- `WriteSliceOfObjects / ReadSliceOfObjects`, every prefix width, rule set and mode: if the writer completes
+without error, every element satisfies `ObjOk` (serialisable, of the denotation the reader is told, admitted by
+the read guard, not refused by the post-read guard when validating) and — when validating — the must-occur codes
+occur (the writer does not look at them), the reader hands back the objects in the order written (`sliceBack`:
+sorted by their bytes when the writer sorts) and consumes exactly the bytes written. -/
+theorem C01_objslice_roundtrip (lp : LP) (r : Rules) (val : Bool) (deny : Option (List Nat)) (os : List Obj) (b : Bytes)
+    (hw : owOp (.slice lp r val deny os) = .done b none) (den : Den) (allow : List Nat) (post : Option Nat)
+    (hok : ∀ o ∈ os, ObjOk den allow post val o)
+    (hmust : val = true → r.mustOccur.all ((os.map (·.code)).contains ·) = true) (rest : Bytes) :
+    orOp (b ++ rest) (.slice lp den r val allow post) = .done (some (.many (sliceBack r os))) b.length none :=
+  slice_roundtrip lp r val deny os b hw den allow post hok hmust rest
+
+/-- The hypotheses are satisfiable: a validated, auto-sorted slice of three objects under a must-occur rule. -/
+example :
+    let os : List Obj := [⟨.u8, 2, [5]⟩, ⟨.u8, 1, [6]⟩, ⟨.u8, 1, []⟩]
+    let r : Rules := { lex := true, autoSort := true, mustOccur := [2] }
+    owOp (.slice .u8 r true (some [4]) os) = .done [3, 1, 0, 1, 1, 6, 2, 1, 5] none ∧
+      (∀ o ∈ os, ObjOk .u8 [1, 2] (some 9) true o) ∧
+      r.mustOccur.all ((os.map (·.code)).contains ·) = true := by
+  refine ⟨by decide, ?_, by decide⟩
+  intro o ho
+  simp only [List.mem_cons, List.not_mem_nil, or_false] at ho
+  rcases ho with rfl | rfl | rfl <;> exact ⟨by decide, rfl, by decide, by decide, by decide⟩
 
 end Hive.Serix
